@@ -443,7 +443,7 @@ func one(c *h.Case, j job, ents []entry, measure bool) {
 	} else {
 		r.Stat("accepted", 1)
 	}
-	if measure {
+	if measure && os.Getenv("VERIF_LIGHT") != "1" { // allocation and CPU budgets are calibrated for uninstrumented builds
 		da := allocated() - a0
 		dc := threadCPU() - c0
 		if da > allocBase+uint64(len(j.data))*allocPerByte {
@@ -485,8 +485,15 @@ func TestCheck(t *testing.T) {
 	seeds := buildCorpus(r)
 	reqs, resps := rpcCorpus()
 	maxExh := r.Pick(48, 96)
+	light := os.Getenv("VERIF_LIGHT") == "1" // sanitizer passes: the same structure at the quick tier's sizes
+	if light {
+		maxExh = 48
+	}
 	for si, s := range seeds {
 		si, s := si, s
+		if light && si%8 != 0 {
+			continue // sanitizer passes: every 8th seed stream (the plain pass runs them all)
+		}
 		r.Case(fmt.Sprintf("io/%d/%s", si, clipLabel(s.label)), func(c *h.Case) { ioCase(c, s, ents, dests, maxExh) })
 	}
 	for i, q := range reqs {
@@ -498,6 +505,20 @@ func TestCheck(t *testing.T) {
 		r.Case(fmt.Sprintf("client/%d", i), func(c *h.Case) { rpcCase(c, q, "client", ents, maxExh) })
 	}
 	jreqs, jresps := jsonCorpus()
+	if light {
+		var a, b [][]byte
+		for i := range jreqs {
+			if i%4 == 0 {
+				a = append(a, jreqs[i])
+			}
+		}
+		for i := range jresps {
+			if i%4 == 0 {
+				b = append(b, jresps[i])
+			}
+		}
+		jreqs, jresps = a, b
+	}
 	for i, q := range jreqs {
 		i, q := i, q
 		r.Case(fmt.Sprintf("jsonrpc-service/%d", i), func(c *h.Case) { rpcCase(c, q, "jsonrpc-service", ents, maxExh) })
@@ -532,6 +553,9 @@ func TestCheck(t *testing.T) {
 		})
 	}
 	nrand := r.Pick(200, 4000)
+	if light && nrand > 400 {
+		nrand = 400
+	}
 	for i := 0; i < nrand; i++ {
 		i := i
 		r.Case(fmt.Sprintf("random/%d", i), func(c *h.Case) { randomCase(c, ents, dests) })
